@@ -407,6 +407,7 @@ func (r *Report) writeEvidence(dir, prop string, mine []*OblSummary, nobl, disch
 			"obligations_by_kind":     kinds,
 			"discharged_by_backend":   bySolver,
 			"paths":                   r.NPaths,
+			"helper_calls_executed_in_place": r.inlinedCalls(),
 			"solver_seconds":          sv,
 			"per_query_timeout_ms":    r.TimeoutMs,
 			"cross_checked":           map[string]interface{}{"enabled": r.Tier == "thorough", "obligations_confirmed_by_a_second_solver": r.Stats.Confirmed, "disagreements": r.Stats.Disagree},
@@ -421,4 +422,16 @@ func (r *Report) writeEvidence(dir, prop string, mine []*OblSummary, nobl, disch
 	}
 	b, _ := json.MarshalIndent(ev, "", " ")
 	os.WriteFile(filepath.Join(dir, prop+".json"), b, 0o644)
+}
+
+// inlinedCalls: calls of functions without a contract that were executed in place (0 on a tree where every callee
+// of a function under contract has a contract of its own)
+func (r *Report) inlinedCalls() int {
+	n := 0
+	for _, fr := range r.Results {
+		if fr.Exec != nil {
+			n += fr.Exec.ninlined
+		}
+	}
+	return n
 }
